@@ -17,6 +17,8 @@ pub struct StepInfo {
     /// finite classification cell of the call (Appendix A)
     pub cell: String,
     pub soft_mismatch: bool,
+    /// the call met adjacent text nodes while consolidation is on
+    pub dirty_text_state: bool,
     pub err_text: String,
     pub failed_post: Option<Box<World>>,
 }
@@ -382,7 +384,11 @@ pub fn step_owned(mut w2: World, w: &World, sid: u32, op: &Op, cfg: &StepCfg) ->
     w2.model.begin_op(sid);
     let pre_model = w2.model.clone();
     let pre_cons = pre_model.cons;
-    let exact = pre_model.exact_text_semantics() || matches!(op, Op::SetConsolidation { .. });
+    // the model follows the store's local merge rules also while adjacent text nodes from a time
+    // without consolidation are around (they stay as they are; only nodes that become adjacent
+    // are merged), so the prediction is judged exactly in that state too
+    let exact = true;
+    info.dirty_text_state = !pre_model.exact_text_semantics();
     let pred = op.apply_model(&mut w2.model);
     info.pred = match &pred {
         Pred::Done(_) => "done",
